@@ -23,7 +23,7 @@ REQUIRED_THEOREMS = [
     'C15_predictive_entries', 'C15_predictive_law', 'C15_predictive_law_gaussian',
     'C15_predictive_law_multiplicative', 'C15_predictive_law_lognormal', 'C15_population_law',
     'C15_population_law_gaussian', 'C15_population_law_lognormal', 'C15_population_two_stage',
-    'C15_posterior_joint_partial', 'C15_posterior_joint_counterexample', 'C15_pam_weights', 'C15_table_labels',
+    'C15_posterior_joint_partial', 'C15_posterior_joint', 'C15_posterior_joint_counterexample', 'C15_pam_weights', 'C15_table_labels',
     'C15_table_labels_pam', 'C15_times_ascending', 'C15_nids', 'C15_nids_counterexample']
 RULE = ('PredictiveModel, PopulationPredictiveModel (elementary / covariate-wrapped / composed population models, '
         'centred and non-centred), Prior-, Posterior- and PAM predictive models over individual- and '
@@ -40,6 +40,9 @@ ASSUMPTIONS = [
     'the dosing-regimen table itself is C10\'s subject: here only its placement in the returned table']
 
 AS_IS = c16.AS_IS
+# model variants tried in this order: the code as it is, then with the repaired PredictiveModel (one generator
+# threaded through the error models)
+VARIANTS = (c16.AS_IS, (False, True))
 WORLD = ('LS', 12345, 0)
 
 
@@ -301,10 +304,21 @@ def case_predictive(ctx, chi, rng, k):
     ts = model_sorted_times(ctx, times)
     ctx.agree('C15.sorted_times', sorted(float(t) for t in times), ts, inp)
     label_spec(ctx, 'C15.table_labels/PredictiveModel', meas, n1, outputs, times, inp, df)
-    m = K.model_run(ctx, AS_IS, ['predictive', spec['kinds'], len(times), n1], s, WORLD)
-    rp = K.Replay(WORLD, s, {}).run(m.calls)
-    ent = predict_entries(ctx, spec, mech, ts, m.cells, rp, lambda u: params)
-    ctx.agree('C15.table/PredictiveModel', meas, table_from_entries(ctx, 'predictive', outputs, ts, n1, ent), inp)
+    # the code as it is hands the integer seed to every error model; the repaired code threads one generator
+    for var in VARIANTS:
+        m = K.model_run(ctx, var, ['predictive', spec['kinds'], len(times), n1], s, WORLD)
+        rp = K.Replay(WORLD, s, {}).run(m.calls)
+        ent = predict_entries(ctx, spec, mech, ts, m.cells, rp, lambda u: params)
+        pred = table_from_entries(ctx, 'predictive', outputs, ts, n1, ent)
+        if rows_close(meas, pred):
+            break
+    else:
+        m = K.model_run(ctx, AS_IS, ['predictive', spec['kinds'], len(times), n1], s, WORLD)
+        rp = K.Replay(WORLD, s, {}).run(m.calls)
+        pred = table_from_entries(ctx, 'predictive', outputs, ts, n1,
+                                  predict_entries(ctx, spec, mech, ts, m.cells, rp, lambda u: params))
+    ctx.branches.add('predictive-variant:%s' % (var,))
+    ctx.agree('C15.table/PredictiveModel', meas, pred, inp)
     ent_py = predict_entries(ctx, spec, mech, ts, m.cells, rp, lambda u: params, python=True)
     ctx.spec('C15.predictive_law/PredictiveModel', rows_close(
         meas, table_from_entries(ctx, 'predictive', outputs, ts, n1, ent_py)), inp)
@@ -474,27 +488,37 @@ def case_prior(ctx, chi, rng, k):
     meas, _, _ = canon_rows(df, outputs)
     ts = model_sorted_times(ctx, times)
     label_spec(ctx, 'C15.table_labels/PriorPredictiveModel', meas, n, outputs, times, inp, df)
-    m = K.model_run(ctx, AS_IS, ['priorPredictive', K.spec_wire(spec), len(times), n], s, WORLD)
     bounds = {'ids': spec['pop']['n_ids']} if spec['type'] == 'pop' else {}
-    rp = K.Replay(WORLD, s, bounds, prior).run(m.calls)
-    rows = {}
-    for c in m.cells:
-        v = rp.value(c['par'][0])
-        rows[c['unit']] = [float(x) for x in np.asarray(v).ravel()]
     # a complete parameter set per sample, drawn from the prior
     keep = np.random.get_state()
     np.random.seed(s)
     direct = [[float(x) for x in prior.sample().flatten()] for _ in range(n)]
     np.random.set_state(keep)
+
+    def attempt(var):
+        m = K.model_run(ctx, var, ['priorPredictive', K.spec_wire(spec), len(times), n], s, WORLD)
+        rp = K.Replay(WORLD, s, bounds, prior).run(m.calls)
+        rows = {}
+        for c in m.cells:
+            v = rp.value(c['par'][0])
+            rows[c['unit']] = [float(x) for x in np.asarray(v).ravel()]
+        preds = []
+        for py in (False, True):
+            ent = inner_predict(ctx, spec, mech, ts, m.cells, rp, n, rows,
+                                lambda u: ['gen', ['S', s + u + 1], 0], WORLD, python=py)
+            preds.append(table_from_entries(ctx, 'averaged', outputs, ts, n, ent))
+        return rows, preds
+
+    for var in VARIANTS:
+        rows, preds = attempt(var)
+        if rows_close(meas, preds[0]):
+            break
+    else:
+        rows, preds = attempt(AS_IS)
+    ctx.branches.add('prior-variant:%s' % (var,))
     ctx.spec('C15.prior_draws', core.close([rows[u] for u in sorted(rows)], direct[:len(rows)]), inp)
-    for py in (False, True):
-        ent = inner_predict(ctx, spec, mech, ts, m.cells, rp, n, rows,
-                            lambda u: ['gen', ['S', s + u + 1], 0], WORLD, python=py)
-        pred = table_from_entries(ctx, 'averaged', outputs, ts, n, ent)
-        if py:
-            ctx.spec('C15.prior_predictive_law', rows_close(meas, pred), inp)
-        else:
-            ctx.agree('C15.table/PriorPredictiveModel', meas, pred, inp)
+    ctx.agree('C15.table/PriorPredictiveModel', meas, preds[0], inp)
+    ctx.spec('C15.prior_predictive_law', rows_close(meas, preds[1]), inp)
 
 
 # ----------------------------------------------------------------------------------------
@@ -573,24 +597,44 @@ def case_posterior(ctx, chi, rng, k, layout=None):
         drawn = [list(v) for v in pm.seen]
     else:
         drawn = None
-    # the model of the selection code
-    ok, cols, lay, kept = ctx.model('C15.posterior', posterior_wire(ds, names, ids), ind_idx)
-    ctx.agree('C15.posterior.accepts', True, ok, inp)
-    if not ok:
-        return
-    n_rows = len(cols[0])
-    matrix = [[cols[p][r] for p in range(len(names))] for r in range(n_rows)]
-    m = K.model_run(ctx, AS_IS, ['posteriorPredictive', K.spec_wire(spec), len(times), n], s, WORLD)
-    bounds = {'rows': n_rows}
-    if spec['type'] == 'pop':
-        bounds['ids'] = spec['pop']['n_ids']
-    rp = K.Replay(WORLD, s, bounds).run(m.calls)
-    unit_params, row_call = {}, {}
-    for c in m.cells:
-        idx = int(rp.value(c['par'][0]))
-        unit_params[c['unit']] = matrix[idx]
-        row_call[c['unit']] = c['par'][0][1]
     jr = joint_rows(ds, names, ids, individual if individual is not None else (ids[0] if ids else None))
+    bounds0 = {'ids': spec['pop']['n_ids']} if spec['type'] == 'pop' else {}
+    m = K.model_run(ctx, AS_IS, ['posteriorPredictive', K.spec_wire(spec), len(times), n], s, WORLD)
+
+    def attempt(wire):
+        """the model of the selection code on this layout of the variables"""
+        ok, cols, lay, kept = ctx.model('C15.posterior', wire, ind_idx)
+        if not ok:
+            return {'ok': False}
+        n_rows = len(cols[0])
+        matrix = [[cols[q][r_] for q in range(len(names))] for r_ in range(n_rows)]
+        rp = K.Replay(WORLD, s, dict(bounds0, rows=n_rows)).run(m.calls)
+        unit_params, row_call = {}, {}
+        for c in m.cells:
+            idx = int(rp.value(c['par'][0]))
+            unit_params[c['unit']] = matrix[idx]
+            row_call[c['unit']] = c['par'][0][1]
+        preds = []
+        for py in (False, True):
+            ent = inner_predict(ctx, spec, mech, ts, m.cells, rp, n, unit_params,
+                                lambda u: ['gen', ['S', s], row_call[u] + 1], WORLD, python=py)
+            preds.append(None if ent is None else table_from_entries(ctx, 'averaged', outputs, ts, n, ent))
+        return {'ok': True, 'params': unit_params, 'preds': preds}
+
+    # the code as it is flattens every variable in its own dimension order; the repaired code transposes
+    # every variable to (chain, draw, ...) first
+    wire = posterior_wire(ds, names, ids)
+    canonical = [[w_[0], False, w_[2]] for w_ in wire]
+    res = attempt(wire)
+    if wire != canonical and not (res['ok'] and res['preds'][0] is not None and rows_close(meas, res['preds'][0])):
+        res2 = attempt(canonical)
+        if res2['ok'] and res2['preds'][0] is not None and rows_close(meas, res2['preds'][0]):
+            res = res2
+            ctx.branches.add('posterior-variant:transposed')
+    ctx.agree('C15.posterior.accepts', True, res['ok'], inp)
+    if not res['ok']:
+        return
+    unit_params = res['params']
     if drawn is not None:
         ctx.agree('C15.posterior.drawn_rows', drawn, [unit_params[u] for u in sorted(unit_params)], inp)
         is_joint = all(any(core.close(v, r) for r in jr) for v in drawn)
@@ -598,16 +642,10 @@ def case_posterior(ctx, chi, rng, k, layout=None):
         is_joint = all(any(core.close(unit_params[u], r) for r in jr) for u in unit_params)
     ctx.spec('C15.posterior_joint/%s' % ('mixed_dim_order' if layout == 'mixed' else 'consistent_dim_order'),
              is_joint, inp, {'drawn': (drawn or [])[:2]})
-    for py in (False, True):
-        ent = inner_predict(ctx, spec, mech, ts, m.cells, rp, n, unit_params,
-                            lambda u: ['gen', ['S', s], row_call[u] + 1], WORLD, python=py)
-        if ent is None:
-            continue
-        pred = table_from_entries(ctx, 'averaged', outputs, ts, n, ent)
-        if py:
-            ctx.spec('C15.posterior_predictive_law', rows_close(meas, pred), inp)
-        else:
-            ctx.agree('C15.table/PosteriorPredictiveModel', meas, pred, inp)
+    if res['preds'][0] is not None:
+        ctx.agree('C15.table/PosteriorPredictiveModel', meas, res['preds'][0], inp)
+    if res['preds'][1] is not None:
+        ctx.spec('C15.posterior_predictive_law', rows_close(meas, res['preds'][1]), inp)
 
 
 # ----------------------------------------------------------------------------------------
@@ -722,13 +760,18 @@ def case_nids(ctx, chi, rng, k):
            'n': n, 'theta': theta}
     ctx.case('n_ids/%s/%s' % (which, 'bare' if bare else 'composed'),
              nontrivial='nids/%s/%s/%d/%d' % (which, bare, stored, n) if n != stored else False, sample=inp)
-    pats, cols, pooled_n = ctx.model('C15.nids', True, stored, n)
     try:
         arr = np.asarray(ppm.sample(theta, times, n_samples=n, seed=3, return_df=False), float)
         raised = None
     except Exception as e:  # noqa
         raised = core.errkind(e)
         ctx.errkinds.add(raised)
+    # heterogeneous dimensions: the code as it is returns the stored individuals, the repaired code the drawn ones
+    pats, cols, pooled_n = ctx.model('C15.nids', True, stored, n)
+    observed = raised if raised else len(pm.seen)
+    if which == 'hetero' and bare and observed != (cols if isinstance(cols, str) else pats):
+        pats, cols, pooled_n = ctx.model('C15.nids', False, stored, n)
+        ctx.branches.add('nids-variant:drawn-individuals')
     if which == 'pooled':
         ctx.agree('C15.nids/pooled.patients', None if raised else len(pm.seen), pooled_n, inp)
         ok = raised is None and len(pm.seen) == n and all(abs(v[-1] - sp[-1]) < 1e-12 for v in pm.seen)
